@@ -22,6 +22,13 @@ pub fn run(args: &Args) -> i32 {
     .with_min_nontrivial(10);
     let max_ops = args.tier.pick(12usize, 40);
     let max_cases = args.tier.pick(4000u64, 200_000);
+    if let Some(c) = args.extra.get("case").and_then(|c| c.parse::<u64>().ok()) {
+        // debugging aid: run one case verbosely (evidence goes to the normal place)
+        std::env::set_var("E_HIST_VERBOSE", "1");
+        let rt = tokio::runtime::Builder::new_current_thread().enable_all().build().unwrap();
+        rt.block_on(one_case(args.seed, c, max_ops, &report));
+        return report.finish();
+    }
     crate::hist::run_parallel(&report, args, 16, max_cases, 120, |i, report| {
         Box::pin(one_case(args.seed, i, max_ops, report))
     });
@@ -42,7 +49,20 @@ pub async fn walk_and_report(
     seed: u64,
     case: u64,
 ) -> bool {
-    let w = walk(ds, &h.env.raw(), true).await;
+    use futures::FutureExt;
+    let w = match std::panic::AssertUnwindSafe(walk(ds, &h.env.raw(), true)).catch_unwind().await {
+        Ok(w) => w,
+        Err(p) => {
+            let msg = crate::hist::panic_msg(&p);
+            let sig = format!("panic-while-validating-version:{}", msg.split(':').next().unwrap_or("").chars().take(60).collect::<String>());
+            report.violation(
+                &sig,
+                &format!("{what}: panic {msg}"),
+                json!({"seed": seed, "case": case, "config": h.cfg.describe(), "version": what, "panic": msg, "ops": h.ops_json(48)}),
+            );
+            return false;
+        }
+    };
     report.count("versions_walked", 1);
     report.count("data_files_opened", w.data_files_opened);
     report.count("deletion_files_decoded", w.deletion_files_read);
@@ -120,6 +140,18 @@ async fn one_case(seed: u64, case: u64, max_ops: usize, report: &Report) {
                     );
                 }
             }
+        }
+    }
+    if std::env::var("E_HIST_VERBOSE").is_ok() {
+        println!("config: {}", h.cfg.describe());
+        for s in &h.steps {
+            println!("{}", s.brief());
+        }
+        for p in &h.problems {
+            println!("PROBLEM {p}");
+        }
+        for p in &h.model_disagreements {
+            println!("MODEL {p}");
         }
     }
     h.count_ops(report);
